@@ -506,7 +506,7 @@ func genC16(rng *hx.Rng, tier string, w *hx.Writer) error {
 		kindC, nm, fb := kind, nmsg, firstBad
 		jobs = append(jobs, &c12job{
 			c:   hx.Case{Entry: "p2precv", Op: 1, Args: hx.L(hx.Zi(1), hx.Zi(1), hx.L(frames...)), Tags: []string{"mitm", "k:" + kind, "nt"}},
-			sub: "c16-mitm", arg: arg, timeout: 60 * time.Second, group: "p2p-connection",
+			sub: "c16-mitm", arg: arg, timeout: 60 * time.Second, group: "p2p-connection", solo: true,
 			finish: func(out string) (string, bool) {
 				parts := strings.SplitN(out, "|", 2)
 				if len(parts) < 2 {
